@@ -9,6 +9,9 @@ import (
 type VersionRange struct {
 	original    string
 	constraints []constraint
+	// alternatives holds the further intervals of a multi-interval range such
+	// as "(,1.0],[1.2,)"; the range contains a version if any interval does
+	alternatives [][]constraint
 }
 
 type constraint struct {
@@ -28,15 +31,46 @@ func (e *Ecosystem) NewVersionRange(rangeStr string) (*VersionRange, error) {
 		return nil, fmt.Errorf("range string cannot be empty or only whitespace")
 	}
 
-	constraints, err := parseVersionRange(trimmed, e)
+	intervals := splitIntervals(trimmed)
+	constraints, err := parseVersionRange(intervals[0], e)
 	if err != nil {
 		return nil, err
 	}
+	var alternatives [][]constraint
+	for _, interval := range intervals[1:] {
+		alternative, err := parseVersionRange(interval, e)
+		if err != nil {
+			return nil, err
+		}
+		alternatives = append(alternatives, alternative)
+	}
 
 	return &VersionRange{
-		original:    rangeStr,
-		constraints: constraints,
+		original:     rangeStr,
+		constraints:  constraints,
+		alternatives: alternatives,
 	}, nil
+}
+
+// splitIntervals splits a multi-interval range such as "(,1.0],[1.2,)" at the
+// commas between a closing and an opening bracket. A range without such a
+// comma is returned as its only interval.
+func splitIntervals(rangeStr string) []string {
+	var intervals []string
+	start := 0
+	for i := 1; i+1 < len(rangeStr); i++ {
+		if rangeStr[i] != ',' {
+			continue
+		}
+		prev := strings.TrimRight(rangeStr[start:i], " ")
+		next := strings.TrimLeft(rangeStr[i+1:], " ")
+		if prev != "" && (prev[len(prev)-1] == ']' || prev[len(prev)-1] == ')') &&
+			next != "" && (next[0] == '[' || next[0] == '(') {
+			intervals = append(intervals, prev)
+			start = len(rangeStr) - len(next)
+		}
+	}
+	return append(intervals, strings.TrimSpace(rangeStr[start:]))
 }
 
 func (vr *VersionRange) Contains(version *Version) bool {
@@ -44,8 +78,21 @@ func (vr *VersionRange) Contains(version *Version) bool {
 		return false
 	}
 
-	// All constraints must be satisfied
-	for _, constraint := range vr.constraints {
+	// All constraints of one interval must be satisfied
+	if satisfiesAll(version, vr.constraints) {
+		return true
+	}
+	for _, alternative := range vr.alternatives {
+		if satisfiesAll(version, alternative) {
+			return true
+		}
+	}
+	return false
+}
+
+// satisfiesAll checks a version against every bound of one interval
+func satisfiesAll(version *Version, constraints []constraint) bool {
+	for _, constraint := range constraints {
 		if !satisfiesConstraint(version, constraint) {
 			return false
 		}
